@@ -99,6 +99,23 @@ struct Run : ContBase {
         if (!ok) c.fail(FUNC, "listtbl:put-failed", "put(%s) returned false, errno=%d", hexs(k).c_str(), errno);
         m.put(e);
     }
+    // a put whose data pointer lies inside the table's own copy of a stored value (newmem=false)
+    void do_put_alias(const std::string &k) {
+        std::vector<size_t> hits = m.lookup(&k);
+        if (hits.empty() || m.v[hits[0]].val.size() < 2) { do_put(k); return; }
+        const Ent old = m.v[hits[0]];
+        Buf *kb = Buf::cstr(k);
+        size_t sz = 0; char *p = (char *)qlisttbl_get(t, kb->c(), &sz, false);
+        if (!p || sz != old.val.size()) { delete kb; c.fail(FUNC, "listtbl:get-missing", "get(%s,newmem=false) before an aliasing put returned %s", hexs(k).c_str(), p ? "a wrong size" : "NULL"); }
+        size_t off = (size_t)s.range(0, (long)sz - 1);
+        Ent e; e.key = k; e.val = old.val.substr(off); e.isstr = old.isstr;
+        errno = poison;
+        bool ok = qlisttbl_put(t, kb->c(), p + off, sz - off);
+        delete kb;
+        c.op("put(%s, pointer %zu bytes into the stored value of the same key, %zu bytes) [%zu equal key(s) present]", hexs(k, 10).c_str(), off, sz - off, hits.size());
+        if (!ok) c.fail(FUNC, "listtbl:put-failed", "put(%s) with data inside the table's own value buffer returned false, errno=%d", hexs(k).c_str(), errno);
+        m.put(e);
+    }
     // calls the library documents as refused (EINVAL): they must fail, say so, and change nothing -
     // the complete comparison with the model follows as after every operation
     void do_refused(const std::string &k) {
@@ -262,7 +279,7 @@ struct Run : ContBase {
         if (!t) c.fail(FUNC, "listtbl:ctor", "qlisttbl() returned NULL");
         int maxops = c.tier ? 1500 : 300, ops = 0;
         while (!s.exhausted() && ops++ < maxops) {
-            int o = (int)s.pick({30, 10, 8, 8, 10, 2, 5, 1, 1, loadable_case ? 6 : 0, 2, 2, 3});
+            int o = (int)s.pick({30, 10, 8, 8, 10, 2, 5, 1, 1, loadable_case ? 6 : 0, 2, 2, 3, loadable_case ? 0 : 2});
             const char *what = "op";
             switch (o) {
                 case 0: do_put(gen_key()); what = "put"; break;
@@ -276,6 +293,7 @@ struct Run : ContBase {
                 case 8: { if (!devnull) devnull = fopen("/dev/null", "w"); bool ok = qlisttbl_debug(t, devnull); c.op("debug()"); if (!ok) c.fail(FUNC, "listtbl:debug", "debug() returned false"); what = "debug"; break; }
                 case 9: do_saveload(); what = "save/load"; break;
                 case 12: do_refused(gen_key()); what = "refused call"; break;
+                case 13: do_put_alias(gen_key()); what = "aliasing put"; break;
                 case 11: { // burst: many entries under one key (getmulti array growth boundaries 10, 20, 40)
                     std::string k = gen_key(); long n = s.pick({1, 1, 1, 1}) == 0 ? 10 : s.pick({1, 1}) == 0 ? s.range(8, 12) : s.range(18, 42);
                     size_t have = m.lookup(&k).size(); if (!m.o.unique && have < (size_t)n && s.boolean()) n -= (long)have;
